@@ -13,7 +13,7 @@ SCRATCH = '--scratch' in sys.argv      # run the checks on the scratch worktree 
 NO_TESTS = '--no-tests' in sys.argv
 pid = args[0]
 name = args[1] if len(args) > 1 else pid
-src = f'/tmp/wt_{pid}_out'
+src = next((a.split('=', 1)[1] for a in sys.argv if a.startswith('--src=')), f'/tmp/wt_{pid}_out')
 dst = f'/verif/seeded/{name}'
 os.makedirs(dst, exist_ok=True)
 for f in ('patch.diff', 'demo.py'):
